@@ -236,12 +236,12 @@ def eval_comp(fv, node, st, spec, kind):
             # element per element of the iterable: a list of that length with arbitrary elements (after a heap havoc when
             # evaluating the element expression may call unknown code).  Sites inside the expression are probed.
             del fv.obligations[no:]
-            from .slicing import probe_sites, reads_only, havoc_state
+            from .slicing import probe_sites, reads_only, havoc_after_partial
             from .ty import ANY
             probe_sites(fv, ast.Expr(value=node), st, 'element of a list comprehension: %s' % str(e)[:100])
             fv.abstracted.append(dict(line=node.lineno, stmt='elements of ' + ast.unparse(node)[:80], reason=str(e)[:160]))
             if not reads_only(node.elt):
-                havoc_state(fv, st, set())
+                havoc_after_partial(fv, st, node.elt)
             r = z3.Const('comp!%d' % n, P.V)
             fv.add_fact(st, z3.And(P.tag(r) == P.TAG_SEQ, P.slen(r) == L))
             return SV(r, T.Seq(ANY))
